@@ -61,6 +61,25 @@ func c07World(tp *Tape, env *Env) (*Plan, *Violation) {
 		prog.Nodes = append([]*Node{bare}, prog.Nodes...)
 		env.St.probe("start_in_an_untitled_node_with_nothing_to_save")
 	}
+	if tp.Chance(3, "silentstretch") {
+		// tens of thousands of statements without a line or a choice, then (if there are handlers) a command: whatever
+		// a runner keeps count of while it runs silently is not part of a snapshot and must not outlive a restore
+		n := tp.Int(9000, 20000, "spinrounds")
+		first := prog.Nodes[0].Title
+		if first == "" && len(prog.Nodes) > 1 {
+			first = prog.Nodes[1].Title
+		}
+		spin := &Node{Title: "SpinLoop"}
+		spin.Body = []*Stmt{{K: sSet, Var: "spin", Op: "+=", E: numLit(1)},
+			{K: sIf, Clauses: []*Clause{{Cond: g.bin("<", &Expr{K: eVar, S: "spin"}, numLit(float64(n))), Body: []*Stmt{{K: sJump, Target: "SpinLoop"}}}}}}
+		if len(cfg.Handlers) > 0 {
+			spin.Body = append(spin.Body, g.command())
+		}
+		spin.Body = append(spin.Body, &Stmt{K: sJump, Target: first})
+		start := &Node{Title: "Spin0", Body: []*Stmt{{K: sDeclare, Var: "spin", E: numLit(0)}, {K: sJump, Target: "SpinLoop"}}}
+		prog.Nodes = append([]*Node{start, spin}, prog.Nodes...)
+		env.St.probe("tens_of_thousands_of_silent_statements")
+	}
 	layout := Layout{Indent: "    ", FinalNL: true}
 	w := World{Readers: []ReaderSpec{{Text: renderNodes(prog.Nodes, layout, 0)}}}
 	w.Host = HostSpec{Storer: []string{"rec", "mem", "default"}[tp.Pick([]int{4, 4, 1}, "storer")], Probes: true, Seed: "s1", Handlers: cfg.Handlers, Overrides: tp.Chance(10, "hostoverrides")}
